@@ -312,6 +312,9 @@ func refEnum(cell string, def int, allowed ...int) int {
 
 type refStaticOpts struct {
 	inherit bool
+	// type3Extends: an exception row with an unsupported exception_type still widens the
+	// date range of an existing service (the statement leaves this open)
+	type3Extends bool
 }
 
 // refStatic interprets a feed model. It is written for well-formed feeds plus the
@@ -471,6 +474,17 @@ func refStatic(m *feedModel, o refStaticOpts) *gtfs.Static {
 			id := cell(t, r, "service_id")
 			d, ok := refDate(cell(t, r, "date"), tz)
 			et := cell(t, r, "exception_type")
+			if id != "" && ok && et != "" && et != "1" && et != "2" && o.type3Extends {
+				if i, exists := svcIdx[id]; exists {
+					sv := &s.Services[i]
+					if d.Before(sv.StartDate) {
+						sv.StartDate = d
+					}
+					if sv.EndDate.Before(d) {
+						sv.EndDate = d
+					}
+				}
+			}
 			if id == "" || !ok || (et != "1" && et != "2") {
 				continue
 			}
